@@ -52,10 +52,10 @@ def run_case(ctx, g):
     import thejoker as tj
     ctx.seed = g.get("seed", ctx.seed)
     rng = ctx.case_rng(g["kind"], g["index"])
-    pr = scen.make_problem(rng, n=int(rng.integers(2, 11)))
+    pr = scen.make_problem(rng, n=int(rng.integers(2, 11)), p=int(rng.choice([1, 2, 2, 3])), q=int(rng.choice([0, 0, 0, 1, 2])))
     c = kern.canon(pr)
     explicit_tref = False
-    if pr.q == 0 and pr.keys == "single" and rng.random() < 0.45:
+    if pr.q == 0 and pr.keys == "single" and rng.random() < 0.6:
         # explicit reference epoch different from the earliest time
         explicit_tref = True
         tr = float(np.round((c["t_ref"] - rng.uniform(1, 200)) * 8) / 8)
@@ -76,6 +76,8 @@ def run_case(ctx, g):
     ctx.count("path=" + path); ctx.count(f"p={pr.p}"); ctx.count(f"q={pr.q}")
     if explicit_tref:
         ctx.count("explicit_tref")
+        if pr.p >= 2:
+            ctx.count("explicit_tref_with_trend")
     inp0 = dict(problem=dict(p=pr.p, q=pr.q, n=c["n"], desc=d, data_form=str(pr.keys), explicit_tref=c["t_ref"] if explicit_tref else None,
                              surveys=[dict(unit=s["unit"], t=s["t"], rv=s["rv"], err=s["err"]) for s in pr.surveys]),
                 L=L, path=path, lib_units=phys["units"])
@@ -86,6 +88,7 @@ def run_case(ctx, g):
     if got_tref is None or abs(got_tref - c["t_ref"]) > 1e-9:
         ctx.violation(R4, g, inp0, dict(samples_t_ref=got_tref), dict(data_t_ref=c["t_ref"]),
                       "posterior samples must carry the data's reference epoch", tags=tags0)
+        return
     names = ["K", "v0"] + [f"dv0_{j+1}" for j in range(pr.q)] + [f"v{l}" for l in range(1, pr.p)]
     units = [du, du] + [du] * pr.q + [du / u.day ** l for l in range(1, pr.p)]
     nrows = min(len(out), 4)
@@ -200,6 +203,7 @@ def post(ctx):
     c = ctx.counters
     if not ctx.replay_mode:
         ctx.require("explicit t_ref cases", c["explicit_tref"], 2)
+        ctx.require("explicit t_ref with a polynomial trend (p>=2)", c["explicit_tref_with_trend"], 3)
         ctx.require("p>=2 cases", c["p=2"] + c["p=3"], 4)
         ctx.require("q>=1 cases", c["q=1"] + c["q=2"], 3)
         ctx.require("hand-built rows", c["hand_built_rows"], 10)
